@@ -25,6 +25,8 @@ structure DriverState where
   subs : List (String × Req × Nat × Nat) := []
   started : List (String × Int) := []
   routes : List (String × Cpl) := []
+  /-- the clock of the last tick (hypothesis `C13.StepOkV` of the no-assertion theorem is evaluated at every step) -/
+  clk : Int := 0
 
 def defsOf (d : String) : SqlDefs := if d == "pg" then Gen.Pg.defs else Gen.Sqlite.defs
 
@@ -53,7 +55,7 @@ def handleLine (st : DriverState) (line : String) : DriverState × Json :=
           let bg := (j.getObjValAs? Bool "bg").toOption.getD true
           return ({ env := defaultEnv cfg, g := defsOf dialect, bgEnabled := bg } : Sys) : Except String Sys) with
       | .error e => (st, Json.mkObj [("fatal", s!"sys_init: {e}")])
-      | .ok sys => ({ st with sys := some sys, snaps := [sys.db], ticks := [], subs := [], started := [], routes := [] }, Json.mkObj [("ok", true)])
+      | .ok sys => ({ st with sys := some sys, snaps := [sys.db], ticks := [], subs := [], started := [], routes := [], clk := 0 }, Json.mkObj [("ok", true)])
     | .ok "submit" | .ok "tick" | .ok "exec" | .ok "complete" | .ok "crash" | .ok "shutdown" =>
       match st.sys with
       | none => (st, Json.mkObj [("fatal", "no system")])
@@ -94,6 +96,9 @@ def handleLine (st : DriverState) (line : String) : DriverState × Json :=
           ({ st with sys := some sys', snaps := st.snaps ++ mids ++ [sys'.db] }, Json.mkObj [("err", match err with | some e => Json.str (storeErrToString e) | none => Json.null), ("db", toJson sys'.db)])
         | .ok ch =>
           let (sys', evs) := sys.step ch
+          -- the hypothesis of C13.server_never_asserts, evaluated on this step of this run
+          let hyp : Bool := decide (C13.StepOkV st.clk sys ch)
+          let st := { st with clk := clkAfter st.clk ch }
           -- history bookkeeping
           let st1 : DriverState := match ch with
             | .submit tid r => { st with subs := (tid, r, st.snaps.length - 1, st.ticks.length) :: st.subs }
@@ -144,7 +149,7 @@ def handleLine (st : DriverState) (line : String) : DriverState × Json :=
                        ("wf_violation", toJson (evs.filterMap fun e => match e with
                           | .dispatch id (.store tx) => if wfTx tx then none else some (id.tid ++ "#" ++ toString id.seq)
                           | _ => none)),
-                       ("threads", toJson (sys'.threads.map (·.tid))), ("apiQ", toJson sys'.apiQ.length)])
+                       ("threads", toJson (sys'.threads.map (·.tid))), ("apiQ", toJson sys'.apiQ.length), ("hyp", hyp)])
     | .ok "batch" =>
       let dialect := (j.getObjValAs? String "dialect").toOption.getD "sqlite"
       match (do
